@@ -321,9 +321,9 @@ pub fn run(args: &Args) -> i32 {
     run_cfg::<W>(args, &rep);
     run_cfg::<E>(args, &rep);
     let plan = if args.quick() {
-        Plan { base_depth: 2, ext_depth: 0, chains: vec![(5, 1)], cache: CacheCfg::None, par: AzksParallelismConfig::disabled() }
+        Plan { base_depth: 2, ext_depth: 0, chains: vec![(5, 1)], shape_depth: 2, cache: CacheCfg::None, par: AzksParallelismConfig::disabled() }
     } else {
-        Plan { base_depth: 3, ext_depth: 2, chains: vec![(9, 1)], cache: CacheCfg::None, par: AzksParallelismConfig::disabled() }
+        Plan { base_depth: 3, ext_depth: 2, chains: vec![(9, 1)], shape_depth: 2, cache: CacheCfg::None, par: AzksParallelismConfig::disabled() }
     };
     let v = V9 { rep: &rep };
     run_plan(args.threads, &plan, &v);
